@@ -192,6 +192,9 @@ func (p Params) values(w *World, v url.Values) {
 	for _, r := range p.Resources {
 		v.Add("resource", r)
 	}
+	if js, ok := authdJSON(p.AuthDetails, p.AuthDetailsEmpty); ok {
+		v.Set("authorization_details", js)
+	}
 }
 
 func (w *World) notifTokenString(h Handle) string {
@@ -348,6 +351,9 @@ func (w *World) ExecWith(o Op) Obs {
 		if o.Assertion != "" {
 			v.Set("assertion", o.Assertion)
 		}
+		if js, ok := authdJSON(o.AuthDetails, o.AuthDetailsEmpty); ok {
+			v.Set("authorization_details", js)
+		}
 		w.hg, w.ba = o.HG, o.BA
 		hdr := http.Header{}
 		w.applyBind(o.Bind, hdr, "POST", pfx+"/token")
@@ -414,6 +420,7 @@ func (w *World) ExecWith(o Op) Obs {
 		w.applyCred(o.Cred, v)
 		o.Params.values(w, v)
 		w.initOK, w.initSub, w.initGr, w.initRes = o.InitOK, o.Sub, o.Granted, o.GrantedRes
+		w.initDet = o.GrantedDetails
 		hdr := http.Header{}
 		w.applyBind(o.Bind, hdr, "POST", pfx+"/bc-authorize")
 		rec, pan := w.serve("POST", pfx+"/bc-authorize", v, hdr)
@@ -452,6 +459,9 @@ func (w *World) absInfo(info goidc.TokenInfo, err error) Obs {
 	o := w.introObs(info.IsActive, string(info.Type), info.Scopes, info.ClientID, info.Subject, info.ExpiresAtTimestamp, info.Confirmation)
 	if o.Active && len(info.ResourceAudiences) > 0 {
 		o.Aud = append([]string(nil), info.ResourceAudiences...)
+	}
+	if o.Active {
+		o.Details = authdAbstractGo(info.AuthorizationDetails)
 	}
 	return o
 }
@@ -549,6 +559,8 @@ func (w *World) absJSON(rec interface {
 		o.Dpop = str("token_type") == "DPoP"
 		o.Res = resourcesOf(m["resources"])
 		o.Aud = jwtAud(at)
+		o.Details = authdAbstract(m["authorization_details"])
+		o.JwtDetails = authdJwtDetails(at)
 		// the confirmation of the token just issued, as the provider's own TokenInfo helper reports it
 		// (public API, read-only): which key / certificate the token is bound to
 		if info, err := w.provider().TokenInfo(observerCtx(), at); err == nil && info.IsActive && info.Confirmation != nil {
@@ -580,6 +592,7 @@ func (w *World) absJSON(rec interface {
 		o := w.introObs(active, str("token_type"), str("scope"), str("client_id"), str("sub"), int(exp), cnf)
 		if active {
 			o.Aud = resourcesOf(m["aud"])
+			o.Details = authdAbstract(m["authorization_details"])
 		}
 		o.Status, o.Raw = status, raw
 		return o
